@@ -164,7 +164,8 @@ PROPS = {
         "floors": {"min_evaluations": {"quick": 15000, "thorough": 400000},
                    "cells": [r"align_SE3\.numerical\.finds_minimiser", r"linear_dynamic\.analytic_sparse\.status_truthful", r"multi_argument\.numerical\.monotone_cost",
                              r"\.monotone_cost\|disney_reused", r"\.iter_le_max_iter\|.*max_iter=0"],
-                   "counters": ["C09.status.Ftol", "C09.status.Ptol", "C09.status.MaxIters", "C09.rejected_steps", "C09.accepted_steps"]},
+                   "counters": ["C09.status.Ftol", "C09.status.Ptol", "C09.status.MaxIters", "C09.rejected_steps", "C09.accepted_steps",
+                                "C09.hook.accepted_by_take_step", "C09.hook.accepted_by_nonpositive_prediction", "C09.hook.accepted_by_zero_residual", "C09.hook.rejected"]},
         "assumptions": ["cost along the iterates is re-evaluated by the monitor with the same residual functor (double); minimisers from long-double normal "
                         "equations / the generating transform", "verdict covers only the executions sampled"],
     },
